@@ -197,6 +197,9 @@ def _mutators(ctx, b, root_pred):
             for a in sorted(conj, key=repr):
                 if a[0] == "is" and len(a[2]) == 1:
                     arm.append(next(iter(a[2])))
+                else:
+                    # anything but a variant match makes the update conditional: surfaces as a different arm label
+                    arm.append("if(" + mir.render_atom(a)[:60] + ")")
         out.setdefault("/".join(sorted(set(arm))), set()).add(mir.short(tm[1]))
     return out
 
